@@ -53,6 +53,7 @@ type Contract struct {
 	Inline       bool
 	NoInline     bool
 	Trusted      bool
+	Undecided    []string // substrings of obligation names that are stated as not decided (assumed, listed in the evidence)
 	Pure         bool
 	Opaque       bool // do not look into the body even without contract clauses
 	NoReturn     bool
@@ -133,7 +134,7 @@ type ContractSet struct {
 var clauseKeywords = map[string]bool{
 	"func": true, "spec": true, "extern": true, "iface": true, "closure": true, "callback": true, "requires": true, "ensures": true,
 	"loop": true, "modifies": true, "inline": true, "noinline": true, "trusted": true, "pure": true, "lemma": true,
-	"axiom": true, "ghost": true, "type": true, "opaque": true, "noreturn": true, "replay": true, "recspec": true, "uspec": true, "uses": true, "nilable": true, "implements": true, "closedworld": true, "stepframes": true, "suffixsplit": true, "bind": true, "freshonly": true, "nocall": true, "typedheap": true, "lemmas": true, "immutable": true, "atcall": true,
+	"axiom": true, "ghost": true, "type": true, "opaque": true, "noreturn": true, "replay": true, "recspec": true, "uspec": true, "uses": true, "nilable": true, "implements": true, "closedworld": true, "stepframes": true, "suffixsplit": true, "bind": true, "freshonly": true, "nocall": true, "typedheap": true, "lemmas": true, "immutable": true, "atcall": true, "undecided": true,
 }
 
 var propsRe = regexp.MustCompile(`^\[((?:C[0-9]+)(?:\s*,\s*C[0-9]+)*)\]\s*`)
@@ -424,6 +425,12 @@ func (cs *ContractSet) LoadFile(path, pkgPath string) {
 					if it = strings.TrimSpace(it); it != "" {
 						cur.NoCalls = append(cur.NoCalls, it)
 					}
+				}
+			}
+		case "undecided":
+			if cur != nil {
+				if it := strings.TrimSpace(rest); it != "" {
+					cur.Undecided = append(cur.Undecided, it)
 				}
 			}
 		case "stepframes":
